@@ -231,25 +231,34 @@ func parseReplay(s string) (barrage, error) {
 	return b, nil
 }
 
-// shrink: greedy one-frame-at-a-time removal while the barrage still fails (any failing outcome),
-// bounded in runs; the final candidate is confirmed with the full timing.
+// shrink: greedy removal while the barrage still fails (any failing outcome): first blocks of
+// half, a quarter, ... of the frames, then single frames from the end; bounded in runs; the final
+// candidate is confirmed with the full timing.
 func shrink(b barrage, failing *result, tm timing) *result {
 	fast := timing{probe: 1500 * time.Millisecond, step: 1500 * time.Millisecond, firstFailStops: true}
 	cur := append([]frame(nil), b.frames...)
 	runs := 0
-	budget := 40
+	budget := 48
 	if failing.outcome >= 10 || failing.outcome == 3 {
-		budget = 24 // every failing run of a hung stack costs a watchdog period
+		budget = 28 // every failing run of a hung stack costs a watchdog period
 	}
-	for i := len(cur) - 1; i >= 0 && runs < budget; i-- {
-		if len(cur) <= 1 {
-			break
-		}
-		cand := append(append([]frame(nil), cur[:i]...), cur[i+1:]...)
+	fails := func(cand []frame) bool {
 		runs++
 		r := runBarrage(barrage{mode: b.mode, frames: cand, label: b.label, kind: b.kind}, fast)
-		if r.outcome != 0 {
-			cur = cand
+		return r.outcome != 0
+	}
+	for size := len(cur) / 2; size >= 1 && runs < budget; size /= 2 {
+		for start := len(cur) - size; start >= 0 && runs < budget && len(cur) > 1; start -= size {
+			if start+size > len(cur) {
+				continue
+			}
+			cand := append(append([]frame(nil), cur[:start]...), cur[start+size:]...)
+			if len(cand) == 0 {
+				continue
+			}
+			if fails(cand) {
+				cur = cand
+			}
 		}
 	}
 	if len(cur) == len(b.frames) {
@@ -259,6 +268,6 @@ func shrink(b barrage, failing *result, tm timing) *result {
 	if r.outcome == 0 {
 		return failing
 	}
-	r.note += fmt.Sprintf(" (shrunk from %d to %d frames in %d runs)", len(b.frames), len(cur), runs)
+	r.note = clip(r.note + fmt.Sprintf(" (shrunk from %d to %d frames in %d runs)", len(b.frames), len(cur), runs))
 	return r
 }
